@@ -2853,7 +2853,12 @@ bool DGXMLScanner::scanAttValue(  const   XMLAttDef* const    attDef
             if (nextCh == quoteCh)
             {
                 if (curReader == fReaderMgr.getCurrentReaderNum())
+                {
+                    // an unpaired leading surrogate directly before the closing quote
+                    if (gotLeadingSurrogate)
+                        emitError(XMLErrs::Expected2ndSurrogateChar);
                     return true;
+                }
 
                 // Watch for spillover into a previous entity
                 if (curReader > fReaderMgr.getCurrentReaderNum())
